@@ -2,6 +2,7 @@ package main
 
 import (
 	"bytes"
+	"regexp"
 	"context"
 	"fmt"
 	"os"
@@ -31,7 +32,7 @@ var solvers = []solverSpec{
 
 const maxVCBytes = 3 << 20
 
-func writeQuery(dir string, idx int, prelude string, o *Obligation) (string, error) {
+func writeQuery(dir string, idx int, prelude string, body []string, o *Obligation) (string, error) {
 	var b strings.Builder
 	b.WriteString("; obligation " + o.Name + "\n")
 	if o.GoalSrc != "" {
@@ -39,6 +40,14 @@ func writeQuery(dir string, idx int, prelude string, o *Obligation) (string, err
 	}
 	b.WriteString("(set-option :produce-models true)\n(set-logic ALL)\n")
 	b.WriteString(prelude)
+	n := o.BufLen
+	if n > len(body) {
+		n = len(body)
+	}
+	for _, l := range body[:n] {
+		b.WriteString(l)
+		b.WriteString("\n")
+	}
 	if o.Guard != "" && o.Guard != "true" {
 		fmt.Fprintf(&b, "(assert %s)\n", monoOptions(o.Guard))
 	}
@@ -134,6 +143,7 @@ func solveAll(dir string, results []*FuncResult, timeoutS int, par int) {
 	type job struct {
 		o       *Obligation
 		prelude string
+		body    []string
 		idx     int
 	}
 	var jobs []job
@@ -141,7 +151,7 @@ func solveAll(dir string, results []*FuncResult, timeoutS int, par int) {
 	for _, r := range results {
 		for _, o := range r.Obls {
 			idx++
-			jobs = append(jobs, job{o, r.Prelude, idx})
+			jobs = append(jobs, job{o, r.Prelude, r.Body, idx})
 		}
 	}
 	var wg sync.WaitGroup
@@ -152,7 +162,7 @@ func solveAll(dir string, results []*FuncResult, timeoutS int, par int) {
 		go func(j job) {
 			defer wg.Done()
 			defer func() { <-sem }()
-			file, err := writeQuery(dir, j.idx, j.prelude, j.o)
+			file, err := writeQuery(dir, j.idx, j.prelude, j.body, j.o)
 			if err != nil {
 				j.o.Verdict = "error"
 				j.o.Output = err.Error()
@@ -168,7 +178,109 @@ func solveAll(dir string, results []*FuncResult, timeoutS int, par int) {
 			if v != "unsat" {
 				j.o.Output = truncate(out, 20000)
 			}
+			if j.o.ExpectSat && v == "unknown" {
+				// second, weaker guard: the ground part of the query (quantified assumptions dropped) must be satisfiable
+				gfile := strings.TrimSuffix(file, ".smt2") + "_ground.smt2"
+				if err := writeGround(file, gfile); err == nil {
+					gv, gs, _, gt := race(gfile, to, j.o.Concrete)
+					j.o.Time += gt
+					switch gv {
+					case "sat":
+						j.o.Verdict, j.o.Solver = "sat-ground", gs
+					case "unsat":
+						j.o.Verdict, j.o.Solver = "unsat", gs+"(ground)"
+					}
+					os.Remove(gfile)
+				}
+			}
 		}(j)
 	}
 	wg.Wait()
+}
+
+var quantDefRe = regexp.MustCompile(`^\(define-fun(?:-rec)? ([^ ]+) `)
+
+// writeGround copies an SMT file without its quantified assertions (and
+// without assertions that mention a quantified definition).
+func writeGround(in, out string) error {
+	b, err := os.ReadFile(in)
+	if err != nil {
+		return err
+	}
+	forms := splitTopLevelForms(string(b))
+	quantNames := map[string]bool{}
+	for _, f := range forms {
+		if m := quantDefRe.FindStringSubmatch(f); m != nil && (strings.Contains(f, "(forall") || strings.Contains(f, "(exists")) {
+			quantNames[m[1]] = true
+		}
+	}
+	// definitions that use quantified definitions are quantified too
+	for changed := true; changed; {
+		changed = false
+		for _, f := range forms {
+			if m := quantDefRe.FindStringSubmatch(f); m != nil && !quantNames[m[1]] {
+				for q := range quantNames {
+					if strings.Contains(f, "("+q+" ") {
+						quantNames[m[1]] = true
+						changed = true
+						break
+					}
+				}
+			}
+		}
+	}
+	var sb strings.Builder
+	for _, f := range forms {
+		if strings.HasPrefix(f, "(assert") {
+			drop := strings.Contains(f, "(forall") || strings.Contains(f, "(exists")
+			for q := range quantNames {
+				if strings.Contains(f, "("+q+" ") {
+					drop = true
+				}
+			}
+			if drop {
+				continue
+			}
+		}
+		sb.WriteString(f)
+		sb.WriteString("\n")
+	}
+	return os.WriteFile(out, []byte(sb.String()), 0o644)
+}
+
+func splitTopLevelForms(src string) []string {
+	var forms []string
+	depth, start := 0, -1
+	inStr := false
+	for i := 0; i < len(src); i++ {
+		c := src[i]
+		if inStr {
+			if c == '"' {
+				inStr = false
+			}
+			continue
+		}
+		switch c {
+		case ';':
+			if depth == 0 {
+				for i < len(src) && src[i] != '\n' {
+					i++
+				}
+			}
+		case '"':
+			inStr = true
+		case '(':
+			if depth == 0 {
+				start = i
+			}
+			depth++
+		case ')':
+			depth--
+			if depth == 0 && start >= 0 {
+				forms = append(forms, src[start:i+1])
+				start = -1
+			}
+		}
+	}
+	return forms
 }
